@@ -52,7 +52,9 @@ def _both_empty(scn):
 def valid(scn):
     """scenarios the generators / the shrinker may produce (documented preconditions of the users)"""
     if scn["kind"] == "timeseries":
-        return len(scn["xts"]) >= 1      # cmb_timeseries_finalize / _summarize require a non-empty series
+        # cmb_timeseries_finalize / _summarize require a non-empty series; time stamps must not decrease (asserted)
+        ts = [t for _, t in scn["xts"]] + [scn["tend"]]
+        return len(scn["xts"]) >= 1 and all(a <= b for a, b in zip(ts, ts[1:])) and ts[0] >= 0
     return True
 
 
@@ -66,6 +68,19 @@ def _weighted_nonunit(scn):
         return scn["kind"] == "wscale" or any(w != 1.0 for w in ws)
     if scn["kind"] == "wmerge":
         return any(w not in (0.0, 1.0) for p in scn["parts"] + [scn.get("then", [])] for _, w in p)
+    return False
+
+
+def _tiny_unit(scn):
+    """weighted scenario all of whose non-zero weights (before and/or after rescaling) are below 1e-15"""
+    k = scn["kind"]
+    if k in ("wseq", "wzero", "wscale"):
+        ws = [w for _, w in scn["xws"] if w != 0]
+        c = scn.get("c", 1.0)
+        return bool(ws) and (max(ws) < 1e-15 or max(ws) * c < 1e-15)
+    if k == "wmerge":
+        ws = [w for p in scn["parts"] + [scn.get("then", [])] for _, w in p if w != 0]
+        return bool(ws) and max(ws) < 1e-15
     return False
 
 
@@ -244,8 +259,9 @@ def run(chk):
                        "contents via dset/wset with the divisibility arranged, accessors on hand-set fields, uninitialised objects) "
                        "run on the real library and on the generated definitions at ℚ; a case is 'exact' when no library call "
                        "raised FE_INEXACT, then all fields must be EQUAL. (ii) TEST evidence for 'up to rounding': scenarios "
-                       "(seq / merge at every split, both orders, targets new|a|b / chained merges / merges with empty operands / "
-                       "weighted / zero weights / unit weights / rescaled weights) over value families " + ", ".join(statcorr.VALUE_FAMS) +
+                       "(seq / merge at every split, both orders, targets new|a|b|self / chained merges / merges with empty operands / "
+                       "weighted / zero weights / unit weights / rescaled weights incl. by 2^-60, 2^-200, 2^60 / weights and time "
+                       "stamps in a tiny absolute unit / cmb_dataset and cmb_timeseries as users) over value families " + ", ".join(statcorr.VALUE_FAMS) +
                        "; compared with exact rational statistics under tolerances scaled by (steps · 2^-52 · max|x|/sd); "
                        "non-trivial = at least 2 samples of non-zero weight; distinct by content hash of the scenario")
     chk.cov["input_distribution"] = {
@@ -255,6 +271,8 @@ def run(chk):
         "ill_conditioned_statistics_skipped": ill, "corpus": len(cres),
         "merge_with_an_empty_operand": sum(1 for s, _, _ in results if s["kind"] in ("merge", "wmerge") and any(len(p) == 0 for p in s["parts"])),
         "merge_with_both_empty": sum(1 for s, _, _ in results if _both_empty(s)),
+        "weights_tiny_in_absolute_terms": sum(1 for s, _, _ in results if _tiny_unit(s)),
+        "time_series_in_a_tiny_time_unit": sum(1 for s, _, _ in results if s["kind"] == "timeseries" and 0 < s["tend"] < 1e-12),
     }
     chk.cov["evidence_kinds"] = {"theorems": "proof (Lean kernel)", "translation_validation": "exact equality where IEEE arithmetic is exact",
                                  "up_to_rounding": "TEST evidence only (tolerance comparison), not proof"}
